@@ -1001,6 +1001,113 @@ func (e *Env) markingFuncOf(pkg *packages.Package, call *ast.CallExpr) *markingF
 // closure of any name, or a function/method of the package (then returned as a literal made of
 // its type and body). nil when fragment() has no such callee.
 func (e *Env) perFilePass(pkg *packages.Package, fd *ast.FuncDecl) *ast.FuncLit {
+	if cached, ok := perFilePassCache[fd]; ok {
+		return cached
+	}
+	lit := e.perFilePass0(pkg, fd)
+	if lit != nil {
+		lit = e.mergePassHelpers(pkg, lit)
+	}
+	perFilePassCache[fd] = lit
+	return lit
+}
+
+var perFilePassCache = map[*ast.FuncDecl]*ast.FuncLit{}
+
+// passHelperParams: parameters of functions whose bodies were merged into the per-file pass; a
+// store through such a parameter is a store into the caller's argument (checked at the call).
+var passHelperParams = map[types.Object]bool{}
+
+// passHelperArg: such a parameter → the variable it is bound to at the call (when the argument is
+// a plain variable).
+var passHelperArg = map[types.Object]types.Object{}
+
+// mergePassHelpers: a per-file pass that hands the file (or something derived from it) and its
+// set to functions of the package, called as statements of its body, is analysed with those
+// functions' bodies in place of the calls. The merged body is made of the original, type-checked
+// nodes: each call statement is replaced by `param := argument` bindings (the parameter
+// identifiers of the callee, which the type checker knows as definitions) followed by the
+// callee's statements.
+func (e *Env) mergePassHelpers(pkg *packages.Package, lit *ast.FuncLit) *ast.FuncLit {
+	info := pkg.TypesInfo
+	changed := false
+	var out []ast.Stmt
+	for _, st := range lit.Body.List {
+		es, ok := st.(*ast.ExprStmt)
+		if !ok {
+			out = append(out, st)
+			continue
+		}
+		call, ok := es.X.(*ast.CallExpr)
+		if !ok {
+			out = append(out, st)
+			continue
+		}
+		fn := calleeFunc(info, call)
+		var decl *ast.FuncDecl
+		if fn != nil && fn.Pkg() == pkg.Types {
+			for _, d := range load.AllFuncDecls(pkg) {
+				if info.Defs[d.Name] == types.Object(fn) && d.Body != nil && d.Type.Params != nil && len(d.Body.List) <= 40 {
+					decl = d
+				}
+			}
+		}
+		if decl == nil || decl.Type.Results != nil && len(decl.Type.Results.List) > 0 {
+			out = append(out, st)
+			continue
+		}
+		// handed the file (or a value of a go/token or go/ast type) or a line set
+		relevant := false
+		for _, a := range call.Args {
+			t := info.TypeOf(a)
+			if t == nil {
+				continue
+			}
+			if mt, ok := t.Underlying().(*types.Map); ok && types.Identical(mt.Key(), types.Typ[types.Int]) {
+				relevant = true
+			}
+			if p, _ := namedOf(t); p == "go/ast" || p == "go/token" {
+				relevant = true
+			}
+		}
+		var params []*ast.Ident
+		for _, f := range decl.Type.Params.List {
+			params = append(params, f.Names...)
+		}
+		// no return statements in the callee (a return would end the callee only)
+		hasRet := false
+		ast.Inspect(decl.Body, func(n ast.Node) bool {
+			if _, ok := n.(*ast.ReturnStmt); ok {
+				hasRet = true
+			}
+			return true
+		})
+		if !relevant || hasRet || len(params) != len(call.Args) || call.Ellipsis.IsValid() {
+			out = append(out, st)
+			continue
+		}
+		changed = true
+		for i, p := range params {
+			if p.Name == "_" {
+				continue
+			}
+			out = append(out, &ast.AssignStmt{Lhs: []ast.Expr{p}, Tok: token.DEFINE, TokPos: call.Pos(), Rhs: []ast.Expr{call.Args[i]}})
+			if o := info.Defs[p]; o != nil {
+				passHelperParams[o] = true
+				if aid, ok := ast.Unparen(call.Args[i]).(*ast.Ident); ok && info.Uses[aid] != nil {
+					passHelperArg[o] = info.Uses[aid]
+				}
+			}
+		}
+		out = append(out, decl.Body.List...)
+	}
+	if !changed {
+		return lit
+	}
+	return &ast.FuncLit{Type: lit.Type, Body: &ast.BlockStmt{Lbrace: lit.Body.Lbrace, List: out, Rbrace: lit.Body.Rbrace}}
+}
+
+func (e *Env) perFilePass0(pkg *packages.Package, fd *ast.FuncDecl) *ast.FuncLit {
 	info := pkg.TypesInfo
 	if fd == nil || fd.Body == nil {
 		return nil
